@@ -36,6 +36,8 @@ type messageInfo struct {
 	flags        string
 	internalDate time.Time
 	seqNum       int
+	maxSeqNum    int     // highest sequence number in the mailbox ("*" in a sequence set)
+	maxUID       int64   // highest UID in the mailbox ("*" in a UID set)
 	db           *sql.DB // database the message was listed from (user or role mailbox)
 }
 
@@ -116,6 +118,13 @@ func HandleSearch(deps ServerDeps, conn net.Conn, tag string, parts []string, st
 		}
 		msg.db = targetDB
 		messages = append(messages, msg)
+	}
+
+	// "*" in a sequence set is the last message, in a UID set the highest UID
+	// (the list is in ascending UID order)
+	for i := range messages {
+		messages[i].maxSeqNum = len(messages)
+		messages[i].maxUID = messages[len(messages)-1].uid
 	}
 
 	// Parse and evaluate search criteria
@@ -219,7 +228,7 @@ func evaluateTokens(msg messageInfo, tokens []string, charset string, userID int
 
 		// Handle sequence set (numbers and ranges)
 		if isSequenceSet(token) {
-			if !matchesSequenceSet(msg.seqNum, token) {
+			if !matchesSequenceSet(msg.seqNum, token, msg.maxSeqNum) {
 				return false
 			}
 			i++
@@ -436,7 +445,7 @@ func evaluateTokens(msg messageInfo, tokens []string, charset string, userID int
 				return false
 			}
 			i++
-			if !matchesUIDSet(int(msg.uid), tokens[i]) {
+			if !matchesUIDSet(int(msg.uid), tokens[i], int(msg.maxUID)) {
 				return false
 			}
 			i++
@@ -477,55 +486,61 @@ func evaluateTokens(msg messageInfo, tokens []string, charset string, userID int
 // Helper functions for search criteria evaluation
 
 func isSequenceSet(token string) bool {
-	// Check if token looks like a sequence number or range (e.g., "1", "2:4", "1:*", "*")
+	// Check if token looks like a sequence set (e.g., "1", "2:4", "1:*", "*", "1,3:5")
 	if token == "*" {
 		return true
 	}
 	for _, ch := range token {
-		if ch != ':' && ch != '*' && (ch < '0' || ch > '9') {
+		if ch != ':' && ch != '*' && ch != ',' && (ch < '0' || ch > '9') {
 			return false
 		}
 	}
 	return len(token) > 0 && (token[0] >= '0' && token[0] <= '9' || token[0] == '*')
 }
 
-func matchesSequenceSet(seqNum int, set string) bool {
-	// Handle single number
-	if !strings.Contains(set, ":") && set != "*" {
-		num, err := strconv.Atoi(set)
-		return err == nil && num == seqNum
+// matchesSequenceSet reports whether num belongs to the sequence set (RFC 3501
+// section 9): comma-separated numbers and ranges, "*" standing for the largest
+// number in use, a range covering the numbers between its two ends whichever
+// comes first. Elements that are not well-formed match nothing.
+func matchesSequenceSet(num int, set string, largest int) bool {
+	for _, part := range strings.Split(set, ",") {
+		bounds := strings.Split(part, ":")
+		if len(bounds) > 2 {
+			continue
+		}
+		lo, ok := sequenceSetBound(bounds[0], largest)
+		if !ok {
+			continue
+		}
+		hi := lo
+		if len(bounds) == 2 {
+			if hi, ok = sequenceSetBound(bounds[1], largest); !ok {
+				continue
+			}
+		}
+		if lo > hi {
+			lo, hi = hi, lo
+		}
+		if num >= lo && num <= hi {
+			return true
+		}
 	}
-
-	// Handle * (highest sequence number) - for now, just return true
-	if set == "*" {
-		return true
-	}
-
-	// Handle range
-	parts := strings.Split(set, ":")
-	if len(parts) != 2 {
-		return false
-	}
-
-	start, end := 0, 0
-	if parts[0] == "*" {
-		start = seqNum // Will match if seqNum is the highest
-	} else {
-		start, _ = strconv.Atoi(parts[0])
-	}
-
-	if parts[1] == "*" {
-		end = 999999 // Effectively infinity
-	} else {
-		end, _ = strconv.Atoi(parts[1])
-	}
-
-	return seqNum >= start && seqNum <= end
+	return false
 }
 
-func matchesUIDSet(uid int, set string) bool {
-	// Similar to sequence set but for UIDs
-	return matchesSequenceSet(uid, set)
+// sequenceSetBound reads one end of a sequence set element: a positive number,
+// or "*" for the largest number in use
+func sequenceSetBound(s string, largest int) (int, bool) {
+	if s == "*" {
+		return largest, true
+	}
+	n, err := strconv.Atoi(s)
+	return n, err == nil && n > 0
+}
+
+func matchesUIDSet(uid int, set string, largestUID int) bool {
+	// Same syntax as a sequence set; "*" is the highest UID in the mailbox
+	return matchesSequenceSet(uid, set, largestUID)
 }
 
 func matchesHeaderOrBody(msg messageInfo, field string, searchStr string, charset string, userID int64, deps ServerDeps) bool {
